@@ -802,6 +802,36 @@ class GenA:
         (x, mx) = self.any_unit(True)
         self._u({"op": "u_mul", "a": x, "b": uref}, M.u_mul(mx, nf))
 
+    def g_dim_epoch(self):
+        """A dimension serialized in one "epoch" of the dimension system and decoded two
+        fundamental dimensions later; then units of that dimension meet units of the newest one."""
+        if self.dim_defines > 0:
+            return
+        rng = self.rng
+        d, md = self.any_dim(mixed=True)
+        codec = rng.choice(["pickle2", "pickle4", "pickle5", "json"])
+        b = self.emit({"op": "dump", "x": d, "kind": "dim", "codec": codec})
+        self.blobs.append((b, "dim", md))
+        self.g_dim_define()
+        self.g_dim_define()
+        newest = self.units[-2][0] if len(self.units) >= 2 else None
+        r = self.emit({"op": "load", "blob": b})
+        self.dims.append((r, md))
+        # units whose dimension is the decoded one, combined with the newest fundamental unit
+        cands = [(n, self.model.unit_names[n]) for n in self.shipped_units
+                 if self.model.dim_of(self.model.unit_names[n]) == md]
+        new_units = [(ref, nf) for ref, nf in self.units if ref[0] == "r" and len(nf[1]) == 1
+                     and nf[1][0][0] in self.token_ref and self.model.base_dim.get(nf[1][0][0], ()) and
+                     len(self.model.base_dim[nf[1][0][0]]) > 9]
+        if not new_units:
+            return
+        for n, nf in rng.sample(cands, min(2, len(cands))):
+            nr, nnf = rng.choice(new_units)
+            self._u({"op": "u_mul", "a": ["u", n], "b": nr}, M.u_mul(nf, nnf))
+            self._u({"op": "u_div", "a": nr, "b": ["u", n]}, M.u_div(nnf, nf))
+        # and dimension algebra with it
+        r2 = self.emit({"op": "d_bin", "f": "*", "a": r, "b": self.dims[-2][0] if len(self.dims) >= 2 else r})
+
     def g_dim_roundtrip(self):
         d, md = self.any_dim()
         codec = self.rng.choice(["pickle2", "pickle4", "pickle5", "json"])
@@ -1062,7 +1092,7 @@ class GenA:
             "q_new": 5, "q_bin": 5, "q_unit": 3, "q_pow": 2, "q_root": 2, "quantify": 3,
             "unprefixed": 2, "q_unit_of": 2, "convert": 5, "cmp": 3, "roundtrip": 4,
             "evict": 4, "import": 1, "d_ops": 2, "p_ops": 2, "dump": 3, "load": 2, "restart": 1.5,
-            "dim_define": 0.7, "dim_roundtrip": 1.5,
+            "dim_define": 0.7, "dim_roundtrip": 1.5, "dim_epoch": 0.8,
         },
         "C02": {
             "law": 22, "define_unit": 4, "derive": 3, "u_mul": 8, "u_pow": 5, "u_root": 5, "pow_then_root": 4,
@@ -1075,7 +1105,7 @@ class GenA:
             "import": 3, "evict": 1, "u_mul": 3, "render": 4, "q_new": 2, "as_ratio": 1,
         },
         "C15": {
-            "roundtrip": 22, "dump": 10, "load": 8, "restart": 3, "twins": 4, "dim_define": 0.7, "dim_roundtrip": 3, "define_unit": 4, "derive": 3, "decl_alias": 3,
+            "roundtrip": 22, "dump": 10, "load": 8, "restart": 3, "twins": 4, "dim_define": 0.7, "dim_roundtrip": 3, "dim_epoch": 0.8, "define_unit": 4, "derive": 3, "decl_alias": 3,
             "u_mul": 8, "u_pow": 5, "p_mul_u": 6, "u_root": 2, "as_ratio": 2, "q_new": 8, "q_bin": 3, "q_unit": 3,
             "q_pow": 2, "render": 2, "evict": 2, "import": 1, "d_ops": 3, "p_ops": 3,
         },
